@@ -92,6 +92,20 @@ func (q *timedQueue) push(peerID peer.ID) {
 	}
 }
 
+// remove drops the pending items of the given peer without calling onPop.
+func (q *timedQueue) remove(peerID peer.ID) {
+	q.Lock()
+	defer q.Unlock()
+
+	items := q.items[:0]
+	for _, next := range q.items {
+		if next.ID != peerID {
+			items = append(items, next)
+		}
+	}
+	q.items = items
+}
+
 func (q *timedQueue) len() int {
 	q.Lock()
 	defer q.Unlock()
